@@ -109,3 +109,42 @@ package parser
 //@ loop 1 invariant ordered: p == ite(_i > 0, _r[_i-1][1], 0)
 //@ loop 1 invariant line: loc.LineNo == loc0.LineNo + count(substr(data, 0, p), '\n') && loc.Pathname == loc0.Pathname
 //@ ensures partition: cov == len(data)
+
+// ---- block structure (C06, C05) ------------------------------------------------------
+// The parser sees the grammar only through these predicates; every BlockSyntax is exactly
+// one of block start / clause / block end, and clauses and end tags require a parent.
+
+//@ interface parser.Grammar
+//@ method BlockSyntax
+//@ assigns nothing
+//@ ensures found: result1 ==> result0 != nil
+
+//@ interface parser.BlockSyntax
+//@ method IsBlockStart pure
+//@ ensures def: result == (!this.IsClause() && !this.IsBlockEnd())
+//@ method IsClause pure
+//@ method IsBlockEnd pure
+//@ method RequiresParent pure
+//@ ensures def: result == (this.IsClause() || this.IsBlockEnd())
+//@ method CanHaveParent pure
+//@ method TagName pure
+//@ method ParentTags
+//@ assigns alloc S$Str
+
+// parseTokens simulates the pushdown recogniser of the property: depth = number of open
+// blocks; a block start pushes, an end tag pops, clauses and end tags need an admitting
+// parent; comment and raw suspend everything until their end tag; at the end of the input
+// the template is accepted iff nothing is open (no block, no comment, no raw).
+//@ func (parser.Config).parseTokens
+//@ props C06 C05 C01
+//@ panics nothing
+//@ ghost opened Val = nil
+//@ at call Parse #1 assert notInCommentOrRaw: !inComment && !inRaw
+//@ at call BlockSyntax #1 assert tagsOnlyOutsideCommentAndRaw: !inComment && !inRaw
+//@ at call append #1 before assert rawVerbatim: inRaw && !inComment && arg1[0] == tok.Source && rawTag != nil && box(rawTag, *parser.ASTRaw) == opened
+//@ at call append #4: opened = arg1[0]
+//@ loop 1 invariant depth: (bn == nil) == (len(stack) == 0) && (sd == nil) == (len(stack) == 0)
+//@ loop 1 invariant rawOpen: inRaw ==> rawTag != nil && box(rawTag, *parser.ASTRaw) == opened
+//@ loop 1 invariant modes: !(inComment && inRaw)
+//@ ensures acceptsIffClosed: (result1 == nil) ==> len(stack) == 0 && !inComment && !inRaw && result0 != nil
+//@ ensures one: (result1 == nil) != (result0 == nil)
